@@ -134,7 +134,7 @@ func recursionGuards(r *Run, rule string, frag []*ssa.Function, minCycles int) {
 			for i, f := range comp {
 				d[f] = intParams[i][assign[i]]
 			}
-			inc := map[int]bool{}   // edge index strictly increasing
+			inc := map[int]bool{} // edge index strictly increasing
 			guard := map[*ssa.Function]int64{}
 			guarded := map[*ssa.Function]bool{}
 			for ei, ed := range edges {
